@@ -905,3 +905,10 @@ B('AS-assign-own-labels', ['C08'], 'series.py', 'SeriesAssign.__call__',
 N('AS-fillna-explicit-own-index', ['C14'], 'series.py', 'Series.fillna',
   '            value = self._reindex_other_like_iloc(value,\n                    sel,\n                    fill_value=fill_value).values',
   '            value = value.reindex(self._index._extract_iloc(sel),\n                    fill_value=fill_value).values')
+
+# ---------------------------------------------------------------------------------- IndexGO.append validates before mutating (C09)
+B('D2-automap-after-append', ['C09', 'C02'], 'index.py', '_IndexGOMixin.append',
+  '        if map_new is not None:\n            self._map = map_new\n', '        if map_new is not None:\n            self._map = AutoMap(self._labels_mutable)\n',
+  'D2.validate-before-mutate', 'append')
+N('D2-automap-built-earlier-renamed', ['C09', 'C02'], 'index.py', '_IndexGOMixin.append',
+  '                map_new = AutoMap(self._labels_mutable + [value])\n', '                map_new = AutoMap([*self._labels_mutable, value])\n')
